@@ -365,6 +365,49 @@ class Compiler:
             self._add_local(name)
             self._emit(OpCode.STORE_LOCAL, self._get_local(name))
 
+    def _emit_loop_target_store(self, left: Node) -> None:
+        """Assign the value on top of the stack to the target of a for-in /
+        for-of loop (a var declaration, a variable of this or an enclosing
+        function, a global, or a member reference) and pop it."""
+        if isinstance(left, VariableDeclaration):
+            name = left.declarations[0].id.name
+            if self._in_function:
+                self._emit_store_variable(name)
+            else:
+                self._emit(OpCode.STORE_NAME, self._add_name(name))
+            self._emit(OpCode.POP)
+        elif isinstance(left, Identifier):
+            # Resolved like any assignment: cell, local, enclosing function, global
+            name = left.name
+            cell_slot = self._get_cell_var(name)
+            slot = self._get_local(name)
+            if cell_slot is not None:
+                self._emit(OpCode.STORE_CELL, cell_slot)
+            elif slot is not None:
+                self._emit(OpCode.STORE_LOCAL, slot)
+            else:
+                closure_slot = self._get_free_var(name)
+                if closure_slot is not None:
+                    self._emit(OpCode.STORE_CLOSURE, closure_slot)
+                else:
+                    self._emit(OpCode.STORE_NAME, self._add_name(name))
+            self._emit(OpCode.POP)
+        elif isinstance(left, MemberExpression):
+            # for (obj.prop in ...) or for (obj[key] of ...)
+            # Stack: [..., iterator, value]; SET_PROP wants obj, prop, value
+            self._compile_expression(left.object)
+            if left.computed:
+                self._compile_expression(left.property)
+            else:
+                idx = self._add_constant(left.property.name)
+                self._emit(OpCode.LOAD_CONST, idx)
+            # [..., iterator, value, obj, prop] -> [..., iterator, obj, prop, value]
+            self._emit(OpCode.ROT3)
+            self._emit(OpCode.SET_PROP)
+            self._emit(OpCode.POP)  # Pop the result of SET_PROP
+        else:
+            raise JSSyntaxError("Invalid left-hand side in for-loop")
+
     def _find_captured_vars(self, body: Node, locals_set: set) -> set:
         """Find all variables captured by inner functions."""
         captured = set()
@@ -684,46 +727,8 @@ class Compiler:
             self._emit(OpCode.FOR_IN_NEXT)
             jump_done = self._emit_jump(OpCode.JUMP_IF_TRUE)
 
-            # Store key in variable
-            if isinstance(node.left, VariableDeclaration):
-                decl = node.left.declarations[0]
-                name = decl.id.name
-                if self._in_function:
-                    self._emit_store_variable(name)
-                else:
-                    idx = self._add_name(name)
-                    self._emit(OpCode.STORE_NAME, idx)
-                self._emit(OpCode.POP)
-            elif isinstance(node.left, Identifier):
-                name = node.left.name
-                slot = self._get_local(name)
-                if slot is not None:
-                    self._emit_store_variable(name)
-                else:
-                    idx = self._add_name(name)
-                    self._emit(OpCode.STORE_NAME, idx)
-                self._emit(OpCode.POP)
-            elif isinstance(node.left, MemberExpression):
-                # for (obj.prop in ...) or for (obj[key] in ...)
-                # After FOR_IN_NEXT: stack has [..., iterator, key]
-                # We need for SET_PROP: obj, prop, key -> value (leaves value on stack)
-                # Compile obj and prop first, then rotate key to top
-                self._compile_expression(node.left.object)
-                if node.left.computed:
-                    self._compile_expression(node.left.property)
-                else:
-                    idx = self._add_constant(node.left.property.name)
-                    self._emit(OpCode.LOAD_CONST, idx)
-                # Stack is now: [..., iterator, key, obj, prop]
-                # We need: [..., iterator, obj, prop, key]
-                # ROT3 on (key, obj, prop) gives (obj, prop, key)
-                self._emit(OpCode.ROT3)
-                self._emit(OpCode.SET_PROP)
-                self._emit(OpCode.POP)  # Pop the result of SET_PROP
-            else:
-                raise NotImplementedError(
-                    f"Unsupported for-in left: {type(node.left).__name__}"
-                )
+            # Store key in the loop target
+            self._emit_loop_target_store(node.left)
 
             self._compile_statement(node.body)
 
@@ -753,29 +758,8 @@ class Compiler:
             self._emit(OpCode.FOR_OF_NEXT)
             jump_done = self._emit_jump(OpCode.JUMP_IF_TRUE)
 
-            # Store value in variable
-            if isinstance(node.left, VariableDeclaration):
-                decl = node.left.declarations[0]
-                name = decl.id.name
-                if self._in_function:
-                    self._emit_store_variable(name)
-                else:
-                    idx = self._add_name(name)
-                    self._emit(OpCode.STORE_NAME, idx)
-                self._emit(OpCode.POP)
-            elif isinstance(node.left, Identifier):
-                name = node.left.name
-                slot = self._get_local(name)
-                if slot is not None:
-                    self._emit_store_variable(name)
-                else:
-                    idx = self._add_name(name)
-                    self._emit(OpCode.STORE_NAME, idx)
-                self._emit(OpCode.POP)
-            else:
-                raise NotImplementedError(
-                    f"Unsupported for-of left: {type(node.left).__name__}"
-                )
+            # Store value in the loop target
+            self._emit_loop_target_store(node.left)
 
             self._compile_statement(node.body)
 
